@@ -1,0 +1,173 @@
+//go:build verif
+
+package asp
+
+import (
+	"bytes"
+	"sort"
+	"strconv"
+	"strings"
+
+	"github.com/thought-machine/please/src/core"
+)
+
+// EvalForVerif interprets src as the BUILD file of pkg exactly the way ParseReader does (parse, then
+// interpretAll; no optimisation passes, as for every package file) and additionally returns a canonical
+// rendering of the variables the package scope holds afterwards (own assignments and everything that
+// subinclude() copied in). Functions and CONFIG are left out. With types set, frozen containers are
+// rendered with a leading 'F' so that callers can tell them from ordinary ones.
+func (p *Parser) EvalForVerif(pkg *core.Package, src []byte, mode core.ParseMode, types bool) (globals string, err error) {
+	p.limiter.Acquire()
+	defer p.limiter.Release()
+
+	stmts, err := p.parseAndHandleErrors(&namedReader{r: bytes.NewReader(src), name: pkg.Filename})
+	if err != nil {
+		return "", err
+	}
+	s, err := p.interpreter.interpretAll(pkg, nil, nil, mode, stmts)
+	if err != nil {
+		return "", err
+	}
+	return renderScopeForVerif(s, types), nil
+}
+
+// EvalOptimisedForVerif is EvalForVerif with the two optimisation passes that subincluded files and builtins
+// go through (Parser.optimise and interpreter.optimiseExpressions) applied before interpretation, in the order
+// parseSubinclude applies them.
+func (p *Parser) EvalOptimisedForVerif(pkg *core.Package, src []byte, mode core.ParseMode, types bool) (globals string, err error) {
+	p.limiter.Acquire()
+	defer p.limiter.Release()
+
+	stmts, err := p.parseAndHandleErrors(&namedReader{r: bytes.NewReader(src), name: pkg.Filename})
+	if err != nil {
+		return "", err
+	}
+	stmts = p.optimise(stmts)
+	p.interpreter.optimiseExpressions(stmts)
+	s, err := p.interpreter.interpretAll(pkg, nil, nil, mode, stmts)
+	if err != nil {
+		return "", err
+	}
+	return renderScopeForVerif(s, types), nil
+}
+
+func renderScopeForVerif(s *scope, types bool) string {
+	names := make([]string, 0, len(s.locals))
+	for k, v := range s.locals {
+		if k == "CONFIG" {
+			continue
+		}
+		if _, isFunc := v.(*pyFunc); isFunc {
+			continue
+		}
+		names = append(names, k)
+	}
+	sort.Strings(names)
+	var b strings.Builder
+	b.WriteByte('{')
+	for i, k := range names {
+		if i > 0 {
+			b.WriteByte(',')
+		}
+		quoteForVerif(&b, k)
+		b.WriteByte(':')
+		renderForVerif(&b, s.locals[k], types, 0)
+	}
+	b.WriteByte('}')
+	return b.String()
+}
+
+// quoteForVerif writes s between double quotes, escaping only the quote, the backslash and control bytes;
+// every other byte is copied as it is.
+func quoteForVerif(b *strings.Builder, s string) {
+	b.WriteByte('"')
+	for i := 0; i < len(s); i++ {
+		switch c := s[i]; {
+		case c == '"':
+			b.WriteString(`\"`)
+		case c == '\\':
+			b.WriteString(`\\`)
+		case c == '\n':
+			b.WriteString(`\n`)
+		case c == '\t':
+			b.WriteString(`\t`)
+		case c == '\r':
+			b.WriteString(`\r`)
+		case c < 0x20:
+			b.WriteString(`\u00`)
+			b.WriteByte("0123456789abcdef"[c>>4])
+			b.WriteByte("0123456789abcdef"[c&15])
+		default:
+			b.WriteByte(c)
+		}
+	}
+	b.WriteByte('"')
+}
+
+// renderForVerif writes a canonical JSON-like form of obj: ints as numbers, strings quoted (quoteForVerif),
+// bools, null, lists (ranges are expanded), dicts with sorted keys. Nesting deeper than 12 levels is cut off
+// with "<deep>" so that cyclic values terminate.
+func renderForVerif(b *strings.Builder, obj pyObject, types bool, depth int) {
+	if depth > 12 {
+		b.WriteString(`"<deep>"`)
+		return
+	}
+	list := func(l pyList) {
+		b.WriteByte('[')
+		for i, x := range l {
+			if i > 0 {
+				b.WriteByte(',')
+			}
+			renderForVerif(b, x, types, depth+1)
+		}
+		b.WriteByte(']')
+	}
+	dict := func(d pyDict) {
+		b.WriteByte('{')
+		for i, k := range d.Keys() {
+			if i > 0 {
+				b.WriteByte(',')
+			}
+			quoteForVerif(b, k)
+			b.WriteByte(':')
+			renderForVerif(b, d[k], types, depth+1)
+		}
+		b.WriteByte('}')
+	}
+	switch t := obj.(type) {
+	case nil:
+		b.WriteString(`"<nil>"`)
+	case pyBool:
+		if t {
+			b.WriteString("true")
+		} else {
+			b.WriteString("false")
+		}
+	case pyNone:
+		b.WriteString("null")
+	case pyInt:
+		b.WriteString(strconv.Itoa(int(t)))
+	case pyString:
+		quoteForVerif(b, string(t))
+	case pyList:
+		list(t)
+	case pyFrozenList:
+		if types {
+			b.WriteByte('F')
+		}
+		list(t.pyList)
+	case *pyRange:
+		list(t.toList(0))
+	case pyDict:
+		dict(t)
+	case pyFrozenDict:
+		if types {
+			b.WriteByte('F')
+		}
+		dict(t.pyDict)
+	case *pyFunc:
+		quoteForVerif(b, "<function "+t.name+">")
+	default:
+		quoteForVerif(b, "<"+obj.Type()+">")
+	}
+}
